@@ -96,6 +96,7 @@ pub mod prelude {
     pub fn m_x16<X: Leaf>(x: X) -> X16 { X16(7000 + x.id() as u32) }
     pub fn m_x32<X: Leaf>(x: X) -> X32 { X32(8000 + x.id() as u32) }
     pub static LS: [[L; 3]; 16] = [[L(0), L(1), L(2)]; 16];
+    pub static RS: [[&'static L; 3]; 16] = { let mut r = [[&LS[0][0]; 3]; 16]; let mut j = 0; while j < 16 { let mut i = 0; while i < 3 { r[j][i] = &LS[j][i]; i += 1; } j += 1; } r };
     pub static CALLS: core::sync::atomic::AtomicUsize = core::sync::atomic::AtomicUsize::new(0);
     pub fn calls_reset() { CALLS.store(0, core::sync::atomic::Ordering::SeqCst); }
     pub fn calls() -> usize { CALLS.load(core::sync::atomic::Ordering::SeqCst) }
@@ -289,6 +290,8 @@ class TypeDef:
 
         if self.kind == "union":
             g = "<T: Copy>" if getattr(self, "generic", False) else ""
+            if g and getattr(self, "generic_where", False):
+                g = "<T> where T: Copy"          # the bound in a where-clause: every impl has to repeat it
             out.append("pub union %s%s { %s }" % (self.name, g, fields_src(self.variants[0])))
         elif self.kind == "struct":
             v = self.variants[0]
@@ -477,6 +480,17 @@ def finalize_attrs(rng, td, noise=()):
             td.traits[i] = rng.choice(["%s, %s" % (td.traits[i], t), "%s, %s" % (t, td.traits[i])])
         else:
             td.traits.insert(rng.randrange(len(td.traits) + 1), t)
+    # a field called like the custom method another field of the same variant uses (a binding of that name in the
+    # generated code would capture the call)
+    for v in td.variants:
+        if v.shape == "named" and len(v.fields) >= 2 and getattr(td, "type_spelling", False) and srng.random() < 0.12:
+            paths = [m.group(1) for f in v.fields for x in getattr(f, "metas", [])
+                     for m in [re.search(r'method\s*(?:=|\()\s*"?([A-Za-z_][A-Za-z0-9_]*)"?\s*[),]', x + ",")] if m]
+            if paths:
+                p = srng.choice(paths)
+                others = [f for f in v.fields if not any(p in x for x in getattr(f, "metas", []))]
+                if others and all(f.name != p for f in v.fields):
+                    srng.choice(others).name = p
     for v in td.variants:
         for f in v.fields:
             # the same type written differently (parenthesised, by path): irrelevant to what the impls do
